@@ -115,6 +115,7 @@ def content_info(desc):
            "u": "c07GenText with most line breaks blanked (prop_c07.go)",
            "b": "c07GenText with a UTF-8 byte order mark written over its first three bytes (prop_c07.go: c07Content)",
            "c": "c07GenText with CR LF written over its first two bytes (prop_c07.go: c07Content)",
+           "z": "c07GenText with NUL bytes written into it every 113 bytes (prop_c07.go: c07Content)",
            "h": "c07GenText with bytes >= 0x80 (UTF-8 and Latin-1) written into it every 97 bytes (prop_c07.go: c07Content)"}[kind]
     return dict(content=desc, size=int(size), content_seed=int(seed), content_generator=gen)
 
